@@ -221,6 +221,8 @@ func scriptedHandler(cr **chainRun, i int, h *Sx) flamego.Handler {
 			case "maprh":
 				k := a.Args()[0].Int()
 				c.Map(customRH(k))
+			case "fl":
+				c.ResponseWriter().Flush()
 			case "wrap":
 				c.MapTo(markWriter{c.ResponseWriter()}, (*http.ResponseWriter)(nil))
 			case "sub":
@@ -353,8 +355,19 @@ func runChain(in *Sx) *Sx {
 		return out
 	}
 	mw := mk(in.Field("mw").Args())
-	for _, h := range mw { // one Use call per handler leaves spare capacity in the middleware slice
-		f.Use(h)
+	if v := in.Field("via"); v != nil && v.Args()[0].Atom == "1" && len(mw) > 0 {
+		// the whole stack at once through Handlers(), from a slice the caller keeps using afterwards: what the
+		// caller does to its own slice later is not the application's business
+		base := make([]flamego.Handler, len(mw), len(mw)+2)
+		copy(base, mw)
+		f.Handlers(base...)
+		intruder := func(c flamego.Context) { c.ResponseWriter().WriteHeader(599) } // not part of the application
+		base[0] = intruder
+		_ = append(base, intruder)
+	} else {
+		for _, h := range mw { // one Use call per handler leaves spare capacity in the middleware slice
+			f.Use(h)
+		}
 	}
 	groups := in.Field("groups").Args()
 	var ghs [][]flamego.Handler
@@ -447,7 +460,7 @@ func runChain(in *Sx) *Sx {
 
 // ---- generators ----
 
-var chainCodes = []int{200, 201, 204, 301, 404, 418, 500}
+var chainCodes = []int{200, 201, 204, 301, 404, 418, 500, 700, 999} // 700, 999: legal for net/http, no standard text
 
 var genExtras = false // C03/C14: also sub-requests and request-scoped ReturnHandlers
 var genWrap = false   // C14/C15: also handlers that re-map http.ResponseWriter to a marking wrapper
@@ -459,8 +472,10 @@ func genActs(rng *rand.Rand, maxNext int, allowPanic, allowCancel bool) []*Sx {
 		switch r := rng.Intn(100); {
 		case r < 22:
 			acts = append(acts, T("wh", I(chainCodes[rng.Intn(len(chainCodes))])))
-		case r < 40:
+		case r < 37:
 			acts = append(acts, T("w", X(string(rune('a'+rng.Intn(6))))))
+		case r < 40: // a flush commits the status like a write does (the wire is no http.Flusher)
+			acts = append(acts, T("fl"))
 		case r < 78:
 			if nexts < maxNext {
 				nexts++
@@ -504,7 +519,7 @@ func genRet(rng *rand.Rand, rich bool) []*Sx {
 		if rng.Intn(2) == 0 {
 			return T("err", A("nil"))
 		}
-		return T("err", X([]string{"e", "bad", "oops", ""}[rng.Intn(4)]))
+		return T("err", X([]string{"e", "bad", "oops", "", "100% full", "%s%d"}[rng.Intn(6)]))
 	}
 	in := func() *Sx { return T("int", I(chainCodes[rng.Intn(len(chainCodes))])) }
 	p := 70
@@ -572,7 +587,7 @@ func chainInput(rng *rand.Rand, mw, route []*Sx, groups [][]*Sx, action *Sx, rep
 		ckind = A("deadline")
 	}
 	return T("in", T("head", B(rng.Intn(5) == 0)), T("dev", B(dev)), T("mw", mw...), T("groups", gs...),
-		T("route", route...), T("action", action), T("reps", I(reps)), T("apprh", apprh), T("env", env), T("ckind", ckind))
+		T("route", route...), T("action", action), T("reps", I(reps)), T("apprh", apprh), T("env", env), T("ckind", ckind), T("via", B(rng.Intn(6) == 0)))
 }
 
 func genC03(rng *rand.Rand, n int, tier string, emit func(*Sx)) {
